@@ -125,7 +125,8 @@ CLAIMS = {
          "C08_interval / C08_interval_at (consecutive integers, first not before one period / the given instant, later ones at least one period "
          "apart, never after unsubscribe), C08_interval_prompt / C08_interval_at_prompt / C08_interval_at_prompt_now (polled as the timers fall due: "
          "exactly one period apart, interval_at's first tick exactly at the given instant, or at the first poll when the instant has been reached), "
-         "C08_prompt_case_exact (the exact observation the oracle demands on those label sequences is the model's), C08_timer (the item "
+         "C08_prompt_case_exact (the exact observation the oracle demands on those label sequences is the model's), C08_timer_complete (the timer's "
+         "task polled when due, before unsubscribe, delivers the item and the completion in that poll), C08_timer (the item "
          "once, not before the due time, then completion), C08_async_prefix / C08_async_complete / C08_future_complete / C08_async_silent_after_unsub (from_future / "
          "from_stream and the _result forms relay exactly what the scripted future / stream yields, then terminate). These predicates are proved "
          "of the timed model by simulation and evaluated on every implementation trace; full traces are compared with the model on 390k cases. "
